@@ -21,6 +21,7 @@ import (
 
 	blocks "github.com/ipfs/go-block-format"
 	"github.com/ipld/go-car/v2/blockstore"
+	"github.com/ipld/go-car/v2/storage/deferred"
 	"github.com/ipld/go-car/v2/verifhook"
 )
 
@@ -35,6 +36,9 @@ var bsFaultPlans = []ftPlan{
 	// two faults in one session: a long section fails far in, the next (short) one fails a few bytes in
 	{O: sOpts{Maxcid: 2048, Codec: "mh", V1: true}, Puts: []string{"b15", "b1", "b4"}, Second: 5},
 	{O: sOpts{Maxcid: 2048, Codec: "mh"}, Puts: []string{"b15", "b1", "b4"}, Second: 40},
+	// the deferred writer on a path: its file and header come into being inside the first Put
+	{O: sOpts{Maxcid: 2048, Codec: "mh"}, Puts: []string{"b1", "b4"}, Deferred: true},
+	{O: sOpts{Maxcid: 2048, Codec: "mh", V1: true}, Puts: []string{"b1", "b4"}, Deferred: true},
 }
 
 func runFaultBsChild(args []string) int {
@@ -50,6 +54,9 @@ func runFaultBsChild(args []string) int {
 	os.Remove(path)
 	defer os.Remove(path)
 	signal.Ignore(syscall.SIGXFSZ)
+	if pl.Deferred {
+		return runFaultDeferred(pl, planIdx, limit, cont, path, o)
+	}
 	fired := false
 	inf := ^uint64(0)
 	if limit >= 0 {
@@ -246,6 +253,83 @@ func runFaultBsChild(args []string) int {
 					o.Msg += fmt.Sprintf(" archive holds %s whose Put did not succeed;", s.Cid)
 				}
 			}
+		}
+	}
+	b, _ := json.Marshal(o)
+	fmt.Println(string(b))
+	return 0
+}
+
+// runFaultDeferred: the same session shape on a DeferredCarWriter. Not every write of that writer passes the
+// write hook (the pragma is written sequentially), so the fault is recognised by the failing call and the limit
+// is lifted when that call has returned: every write of the faulted call past the limit fails.
+func runFaultDeferred(pl ftPlan, planIdx int, limit int64, cont, path string, o ftObs) int {
+	inf := ^uint64(0)
+	lift := func() { syscall.Setrlimit(syscall.RLIMIT_FSIZE, &syscall.Rlimit{Cur: inf, Max: inf}) }
+	w := deferred.NewDeferredCarWriterForPath(path, idsToCids([]string{"b1"}), pl.O.carOpts()...)
+	if limit >= 0 {
+		syscall.Setrlimit(syscall.RLIMIT_FSIZE, &syscall.Rlimit{Cur: uint64(limit), Max: inf})
+	}
+	fired, stop := false, false
+	acked := map[string]bool{}
+	put := func(id string) error {
+		b := alphaByID[id]
+		return w.Put(bg, b.Cid.KeyString(), b.Data)
+	}
+	for _, id := range pl.Puts {
+		if stop {
+			break
+		}
+		err := put(id)
+		if err == nil {
+			acked[id] = true
+			continue
+		}
+		if fired {
+			o.Msg += " a Put after the fault failed: " + err.Error() + ";"
+			continue
+		}
+		fired = true
+		lift()
+		o.Call, o.ErrRet = "put", true
+		if has, herr := w.Has(bg, alphaByID[id].Cid.KeyString()); herr == nil && has {
+			o.Visible = true
+		}
+		switch cont {
+		case "retry":
+			if put(id) == nil {
+				acked[id] = true
+			}
+		case "finalize":
+			stop = true
+		}
+	}
+	ferr := w.Close()
+	if !fired && ferr != nil {
+		fired = true
+		o.Call, o.ErrRet = "finalize", true
+	}
+	lift()
+	o.Faults = 1
+	for id := range acked {
+		o.Acked = append(o.Acked, id)
+	}
+	o.FinOK = ferr == nil
+	if !fired {
+		o.Call, o.ErrRet = "none", true
+	}
+	if o.FinOK {
+		out, _ := os.ReadFile(path)
+		var want []string
+		for id := range acked {
+			want = append(want, id)
+		}
+		if len(out) == 0 && len(want) == 0 {
+			o.Well, o.Exact = true, true // no Put succeeded: the deferred writer may never have created its output
+		} else {
+			m := wellFormedHolding(out, pl.O, []string{"b1"}, want, nil)
+			o.Well, o.Msg = m == "", o.Msg+m
+			o.Exact = o.Well
 		}
 	}
 	b, _ := json.Marshal(o)
